@@ -17,6 +17,7 @@ import AcVerif.Pre.Builder
 import AcVerif.Cost
 import AcVerif.Compiler
 import AcVerif.DfaModel
+import AcVerif.ContigModel
 /-!
 # Line-protocol driver: the model's answer to each request
 -/
@@ -629,6 +630,37 @@ def answerCertDfa (r : Req) : String :=
         s!"cert-fail " ++ " | ".intercalate diags
   | _, _ => "bad-request:certdfa"
 
+/-- `certcontig`: certificate of a dumped contiguous NFA against the word-level transcription
+of its encoder (L1e) applied to the transcribed compiler's NFA: match lists, both anchorings,
+failure hop counts. -/
+def answerCertContig (r : Req) : String :=
+  match MatchKind.parse (r.getD "mk" "std"), r.list? "pats" with
+  | some k, some P =>
+    match parseTable r k with
+    | none => "bad-request:dump"
+    | some T =>
+      let B := T.toAut
+      let n := T.states.size
+      let N := CNfa.compile k (r.flag "fold") P
+      let M := buildContig N (r.natD "dd" 2) (r.flag "bc") T.hasPre
+      let A := M.toAut k P T.hasPre
+      let res := [false, true].map fun anch =>
+        let f := buildSim A B n anch
+        let ok := certOk A B n anch false f allBytes
+        (anch, ok, if ok then "ok" else certDiag A B n anch false f toString)
+      let f := buildSim A B n false
+      let failsOk := (List.range n).all fun b =>
+        match f[b]?, T.states[b]? with
+        | some (some a), some st =>
+          allBytes.all fun c => st.fails.getD c.toNat 0 == (M.nextState false (M.repr.size + 1) a c (0, 0)).2
+        | _, _ => true
+      if failsOk && res.all (·.2.1) then s!"cert-ok states={n} l1e_words={M.repr.size}"
+      else
+        let diags := res.filterMap fun (anch, ok, d) =>
+          if ok then none else some s!"anch={if anch then 1 else 0}:{d}"
+        s!"cert-fail fails={if failsOk then 1 else 0} " ++ " | ".intercalate diags
+  | _, _ => "bad-request:certcontig"
+
 /-- `certpair`: certificate of one dump (prefix `b_`) against another (prefix `a_`),
 full match lists, both anchorings. -/
 def answerCertPair (r : Req) : String :=
@@ -683,6 +715,7 @@ def respond (lineNo : Nat) (line : String) : List String :=
     | "certpair" => [s!"{lineNo} - {answerCertPair r}"]
     | "certl1c" => [s!"{lineNo} - {answerCertL1c r}"]
     | "certdfa" => [s!"{lineNo} - {answerCertDfa r}"]
+    | "certcontig" => [s!"{lineNo} - {answerCertContig r}"]
     | "packed" => ((r.getD "pcfg" "default").splitOn ";").map fun v => s!"{lineNo} {v} {answerPacked r v}"
     | "pre" => (cfgsOf r).map fun c => s!"{lineNo} {c.name} {answerPre r c}"
     | "meta" => (cfgsOf r).map fun c => s!"{lineNo} {c.name} {answerMeta r c}"
